@@ -55,7 +55,14 @@ def ieval(x, env):
         return v
     if k == 'un':
         v = ieval(x['e'], env)
-        return {'-': -v, '+': v, '!': int(not v), '~': ~v}[x['op']]
+        op = x['op']
+        if op in ('post++', 'post--'):
+            return v                    # value before the side effect
+        if op == 'pre++':
+            return v + 1
+        if op == 'pre--':
+            return v - 1
+        return {'-': -v, '+': v, '!': int(not v), '~': ~v}[op]
     if k == 'cond':
         return ieval(x['a'] if ieval(x['c_'], env) else x['b'], env)
     if k == 'bin':
